@@ -124,6 +124,15 @@ def check(rep, text, cfg, atts, nice, mode, pre_exists, plus=None, uid=None):
                     n_written = w.write(d, plus_cols=vals) if plus else w.write(d)
                     n_none = w.write(None)
                     w.close()
+                    reopened = uid is None and not plus and len(exp_l) > 0 and (len(atts) % 2 == 0)
+                    if reopened:
+                        # the documented close() -> open() -> write more: appended rows only, no second header
+                        w.open()
+                        n_again = w.write(d)
+                        w.close()
+                        if n_again != len(exp_l):
+                            why = f'TractWriter.write after re-opening reports {n_again} rows for {len(exp_l)} tracts'
+                            break
                     extra_h = list(plus or []) + (['UID'] if uid is not None else [])
                     n = len(exp_l)
                     extra_rows = [vals + ([f'{str(uid + 1).rjust(4, "0")}.{alpha(j + 1)}-{alpha(n)}'] if uid is not None else [])
@@ -139,6 +148,8 @@ def check(rep, text, cfg, atts, nice, mode, pre_exists, plus=None, uid=None):
             old = [['old', 'row']] if (pre_exists and mode == 'a') else []
             hdr = [] if (pre_exists and mode == 'a') else [expected_header(atts, nice) + extra_h]
             body = [[joined(v) for v in row] + ex for row, ex in zip(exp_l, extra_rows)]
+            if writer == 'TractWriter' and uid is None and not plus and len(exp_l) > 0 and (len(atts) % 2 == 0):
+                body = body + body          # written once more after close() / open()
             # csv.reader yields [] for an empty line: a row of one empty cell is written as '""' -> ['']
             if rows != old + hdr + body:
                 why = f'{writer}: file content differs from one header row plus one row per tract with joined cell contents'
